@@ -3,6 +3,8 @@ package pe
 // C02 — session lifecycle for N UEs: establish, service request, release, deregister.
 
 import (
+	"time"
+	"strings"
 	"encoding/hex"
 	"fmt"
 	"regexp"
@@ -47,6 +49,11 @@ func genC02Main(maxR int) func(t *rapid.T) *peCase {
 		cfg.Dereg = drawCount(t, "D", r)
 		c := &peCase{Level: "main", Cfg: cfg}
 		c.Sc = genScenario(t, cfg, r, refamf.Policy{DistinctSUPI: true})
+		if e := pos(cfg.clamps().E); e >= 2 && rapid.IntRange(0, 2).Draw(t, "slow_smf_case") == 1 {
+			// the SMF of one of the earlier UEs is slow: had the emulator several establishments outstanding, the
+			// answers would not come back in the order of the requests
+			c.Sc.UEs[rapid.IntRange(0, e-2).Draw(t, "slow_smf_ue")].SetupDelayMs = 250
+		}
 		return c
 	}
 }
@@ -122,6 +129,11 @@ func evalC02Main(test string) func(c *peCase) evalResult {
 		res := converse(sp, c.Sc, bound(k.sleepBudget()))
 		v, retry := conversationVerdict(c, res, k.expectedEvents())
 		v.Classes = append(append(configClasses(c.Cfg), c02Classes(c.Cfg)...), "level:main")
+		for _, cl := range scenarioClasses(c.Sc) {
+			if strings.Contains(cl, "late") {
+				v.Classes = append(v.Classes, cl)
+			}
+		}
 		if res.AMF != nil {
 			v.Classes = append(v.Classes, observedClasses(res.AMF)...)
 		}
@@ -200,7 +212,9 @@ func evalC02Proc(c *peCase) evalResult {
 	}
 	defer removeAll(sp.Dir)
 	k := c.Cfg.clamps()
-	res := converse(sp, c.Sc, bound(procSleepBudget(c.Script)))
+	// a quarter of a second per scripted operation on top of the fixed sleeps: populations of hundreds of UEs take their
+	// time on a busy machine, and a budget that is hit means "inconclusive", never a violation
+	res := converse(sp, c.Sc, bound(procSleepBudget(c.Script))+time.Duration(len(c.Script))*250*time.Millisecond)
 	v, retry := conversationVerdict(c, res, k.expectedEvents())
 	v.Classes = append(append(configClasses(c.Cfg), c02Classes(c.Cfg)...), "level:proc")
 	v.Hash = c.hash()
@@ -354,6 +368,10 @@ func genC02Many(level string) func(t *rapid.T) *peCase {
 			c.Script = cfg.procScript(k)
 		}
 		c.Sc = genScenario(t, cfg, n, refamf.Policy{DistinctSUPI: true})
+		for i := range c.Sc.UEs {
+			// nothing is sent late here: the population is the point, and 300 UEs with pauses take minutes
+			c.Sc.UEs[i].CUCDelayMs, c.Sc.UEs[i].SetupDelayMs = 0, 0
+		}
 		return c
 	}
 }
